@@ -9,4 +9,4 @@ one() {
   echo "$p thorough rc=$rc $(( $(date +%s) - t0 ))s $(echo "$out" | grep -E 'VIOLATION|KNOWN|thorough:' | head -3 | tr '\n' ' ')"
 }
 export -f one
-echo $PROPS | tr ' ' '\n' | xargs -P 3 -I{} bash -c "one {} $ROOT"
+echo $PROPS | tr ' ' '\n' | xargs -P 2 -I{} bash -c "one {} $ROOT"
